@@ -50,6 +50,9 @@ type ConnPlan struct {
 	// Streamed (busy only): the handler streams its response with the chunked body writer; the header
 	// block leaves with its first Write, which it makes after it has been released
 	Streamed bool `json:"streamed,omitempty"`
+	// MoreBytes (busy only): while its request is being handled the client has already written the beginning of
+	// its next request on the connection (a pipelining client, a client that does not wait)
+	MoreBytes bool `json:"client_sent_more_bytes,omitempty"`
 }
 
 type Plan struct {
@@ -402,7 +405,12 @@ func runPlanInner(p *Plan) (msg string, log []string) {
 			return "harness: a busy handler was not entered within 5 s", log
 		}
 		logf("handler %d entered", i)
+		if cp.MoreBytes {
+			fmt.Fprintf(conns[i], "GET /fa")
+			logf("client %d wrote the first bytes of its next request", i)
+		}
 	}
+	time.Sleep(5 * time.Millisecond)
 	for i, cp := range p.Conns {
 		if cp.State == "busy" && cp.Release == "before" {
 			doRelease(i)
@@ -627,6 +635,10 @@ func genPlan(t *rapid.T, transport string) *Plan {
 			cp.BodySize = rapid.SampledFrom([]int{1, 100, 4096, 65536, 262144}).Draw(t, "bodySize")
 			cp.Release = rapid.SampledFrom([]string{"before", "after-hook", "after-hook+60ms", "after-hook+60ms", "after-wait"}).Draw(t, "release")
 			cp.Streamed = rapid.IntRange(0, 3).Draw(t, "streamedResponse") == 0
+			if rapid.IntRange(0, 3).Draw(t, "clientSentMoreBytes") == 0 {
+				cp.MoreBytes = true
+				cp.BodySize = rapid.SampledFrom([]int{100, 262144, 1 << 20}).Draw(t, "bodySizeBehindMoreBytes")
+			}
 		}
 		p.Conns = append(p.Conns, cp)
 	}
@@ -647,6 +659,9 @@ func classify(p *Plan) (bool, []string) {
 	busyLate, other := false, false
 	for _, c := range p.Conns {
 		cls = append(cls, "conn-"+c.State)
+		if c.MoreBytes {
+			cls = append(cls, "client-sent-more-bytes")
+		}
 		if c.State == "busy" {
 			cls = append(cls, "release-"+c.Release)
 			if c.Release != "before" {
@@ -692,6 +707,10 @@ func scenarios(t *testing.T, transport, unit string) {
 				rec.Excluded("D49-Deregister-error-aborts-Shutdown", 1)
 				return
 			}
+			if inD132(p, msg) && ev.ReportKnown(prop, "D132") {
+				rec.Excluded("D132-response-cut-by-a-reset-when-the-client-had-sent-more-bytes", 1)
+				return
+			}
 			t.Fatalf("%s\nplan: %+v\nhistory:\n  %s", msg, *p, strings.Join(log, "\n  "))
 		}
 		if nt && rec.WantSample() {
@@ -715,6 +734,22 @@ func inD49(p *Plan, log []string) bool {
 		}
 	}
 	return false
+}
+
+// inD132: known finding D132. The standard transport closes a connection whose response carried
+// Connection: close at once; bytes of a next request that the client had already sent are unread in the
+// kernel then, so the close is a reset, which discards what of the response had not been delivered yet. Only
+// this is attributed to the finding: the incomplete response of a connection of the plan whose client had
+// sent more bytes, on the standard transport.
+func inD132(p *Plan, msg string) bool {
+	var idx int
+	if p.Transport != "standard" || !strings.Contains(msg, "but the response is incomplete") {
+		return false
+	}
+	if _, err := fmt.Sscanf(msg, "connection %d:", &idx); err != nil || idx < 0 || idx >= len(p.Conns) {
+		return false
+	}
+	return p.Conns[idx].MoreBytes
 }
 
 func TestC18Standard(t *testing.T) { scenarios(t, "standard", "standard-transport") }
